@@ -642,7 +642,8 @@ class Condition(ConditionLike):
         callable_error = []
         callable_false = []
         for datum in getattr(data, self.DATUM_TYPE.value)():
-            if data_has_paths:
+            if data_has_paths and self.DATUM_TYPE is FilterDatumType.VALUES:
+                # (only the values are paired with their paths, not the keys / indices)
                 datum, _ = datum
 
             try:
